@@ -6,6 +6,8 @@ Behaviour = basename of the executable that exec'd this file (see the stubs next
   sigkill (writes complete, valid output, then dies by SIGKILL: negative return code)
   bigout (like ok, but first writes 200 KiB of progress messages to STDERR: more than a pipe buffer, so the program
           blocks until somebody reads the pipe; it cannot be seen "finished" by polling alone)
+  dup_records (valid rows, but the record of input 0 is written twice: a stale copy first, the valid one last)
+  garbage_extra (one record too many), garbage_header (the last header is not an input index)
   garbage_swap (equal row lengths, right headers; row 0 has one symbol too many, row 1 one too few: the totals agree)
 Environment (inherited through Popen):
   C20_GATE     path; the tool blocks until this file exists (so the harness decides when it "finishes")
@@ -138,6 +140,14 @@ def main():
         r1 = rows[1][1]
         last = max(i for i, ch in enumerate(r1) if ch != "-")
         rows[1][1] = r1[:last] + "-" + r1[last + 1:]
+    if behaviour == "dup_records":
+        # the record of input 0 appears twice, the later copy is the (shifted) one that counts for a dict-like reader
+        first = rows[0][1]
+        rows = [[rows[0][0], first[-1] + first[:-1]]] + rows[1:] + [[rows[0][0], first]]
+    if behaviour == "garbage_extra":
+        rows.append([str(len(rows)), rows[0][1]])          # one record more than there were input sequences
+    if behaviour == "garbage_header":
+        rows[-1][0] = "seq" + rows[-1][0]                  # a header that is not an input index
     if behaviour == "garbage_empty":
         text = ""
         rows = []
